@@ -295,7 +295,7 @@ class C37(Check):
 
     def run_shard(self, tier, seed, shard, nshards):
         res = ShardResult()
-        n = 1200 if tier == "thorough" else 60
+        n = 360 if tier == "thorough" else 60
         strat = gg.graph(voc(), depth=3, max_blocks=12)
         cnt = [0]
 
